@@ -141,7 +141,13 @@ func C07(c *core.Ctx) {
 					continue
 				}
 				id++
-				probes = append(probes, pub("P", t, 1, id, "probe-"+t))
+				if cfg.MaxQosSet {
+					// under a lowered cap the probes are QoS 2 exchanges: what arrives shows the
+					// GRANTED QoS (min(2, granted)), not just that something arrives
+					probes = append(probes, Action{Kind: "pub2", Client: "P", Topic: t, QoS: 2, ID: id, Payload: "probe-" + t})
+				} else {
+					probes = append(probes, pub("P", t, 1, id, "probe-"+t))
+				}
 			}
 			hist := []Action{conn("P", "p", true), conn("S", "s", true), sa}
 			if failing {
